@@ -399,58 +399,104 @@ fn vtable_hint() {
     kani::assume(c.metadata().name().len() == 1);
 }
 
-/// Harness A pre-state: no collector anywhere; the published max level is any of the six
-/// values (OFF is the state of a process that never had a collector; higher values are the
-/// state another thread's scoped collector leaves visible to a thread that has none).
-fn a_init() {
-    vtable_hint();
-    v::set_max(LevelFilter::TRACE);
-    reset_all();
-}
-
-/// Harness B step 1: raise the max level so that first hits reach `register`.
-fn b_init() {
-    vtable_hint();
-    v::set_max(LevelFilter::TRACE);
-    reset_all();
-}
-
-/// Harness B step 2 (after the warm-up calls): every callsite of the instrumented twin is
-/// now in the real (dispatcher-less) registry with cached interest `never`; overwrite the
-/// cache through the real setter with a symbolic non-never interest.
-fn b_arm(expected_callsites: usize) -> bool {
-    b_arm_with(expected_callsites, kani::any())
-}
-
-fn b_arm_with(expected_callsites: usize, always: bool) -> bool {
-    let mut n = 0usize;
-    v::for_each_registered_callsite(|_| n += 1);
-    assert!(n == expected_callsites);
-    v::for_each_registered_callsite(|c| {
-        c.set_interest(if always { Interest::always() } else { Interest::sometimes() })
-    });
-    reset_all();
-    always
-}
-
 fn b_install() -> dispatch::DefaultGuard {
     let d = v::dispatch_unregistered(&REC);
     dispatch::set_default(&d)
 }
 
+/// Harness A — no collector anywhere. `go(inst, x)` runs one twin on input `x` and returns
+/// everything observable (return value, final `&mut` state, effect ledger).
+/// State 1: a process that never had a collector (published max level OFF, the initial value).
+/// State 2: max level TRACE (what another thread's scoped collector leaves visible to a thread
+/// that has none): the first hit registers the callsite(s) in the real, dispatcher-less
+/// registry, the real `rebuild_callsite_interest` caches `never`, the span is disabled.
+fn check_a<I: Copy, R: PartialEq>(go: impl Fn(bool, I) -> R, x: I) -> R {
+    reset_all();
+    let p = go(false, x);
+    let i1 = go(true, x);
+    assert!(p == i1);
+    vtable_hint();
+    v::set_max(LevelFilter::TRACE);
+    let i2 = go(true, x);
+    assert!(p == i2);
+    // a disabled span evaluates no field expression
+    assert!(FIELD_EVALS.load(Relaxed) == 0);
+    i2
+}
+
+/// the collector's answer when a callsite asks for its interest (harness B)
+static STUB_ALWAYS: AtomicBool = AtomicBool::new(true);
+static STUB_HITS: AtomicUsize = AtomicUsize::new(0);
+
+/// Stub for `tracing::__macro_support::MacroCallsite::register` (harness B only): the callsite
+/// registry is C01's subject; here a first hit gets the interest the recording collector
+/// would answer (`sometimes` or `always`) without walking the global registry.
+pub fn register_stub(_cs: &'static tracing::__macro_support::MacroCallsite) -> Interest {
+    STUB_HITS.fetch_add(1, Relaxed);
+    if STUB_ALWAYS.load(Relaxed) {
+        Interest::always()
+    } else {
+        Interest::sometimes()
+    }
+}
+
+/// Harness B — recording collector is the thread default, every callsite enabled.
+fn check_b<I: Copy, R: PartialEq>(go: impl Fn(bool, I) -> R, x: I, always: bool) -> R {
+    v::set_max(LevelFilter::TRACE);
+    STUB_ALWAYS.store(always, Relaxed);
+    reset_all();
+    let p = go(false, x);
+    reset_all();
+    let g = b_install();
+    let i = go(true, x);
+    drop(g);
+    assert!(p == i);
+    i
+}
+
+/// Harness K step 1 — like B but through the real registry (C01-K1 mechanism): raise the max
+/// level so that the warm-up calls' first hits reach `MacroCallsite::register`.
+fn k_init() {
+    vtable_hint();
+    v::set_max(LevelFilter::TRACE);
+    reset_all();
+}
+
+/// Harness K step 2 (after the warm-up calls): every callsite of the instrumented twin is in
+/// the real (dispatcher-less) registry with cached interest `never`; overwrite the cache
+/// through the real setter with a symbolic non-never interest, then measure.
+fn check_k<I: Copy, R: PartialEq>(go: impl Fn(bool, I) -> R, x: I, callsites: usize) -> (R, bool) {
+    let mut n = 0usize;
+    v::for_each_registered_callsite(|_| n += 1);
+    assert!(n == callsites);
+    let always: bool = kani::any();
+    v::for_each_registered_callsite(|c| {
+        c.set_interest(if always { Interest::always() } else { Interest::sometimes() })
+    });
+    reset_all();
+    let p = go(false, x);
+    reset_all();
+    let g = b_install();
+    let i = go(true, x);
+    drop(g);
+    assert!(p == i);
+    (i, always)
+}
+
 /// what the attribute arguments promise about the span, restated by hand
 pub struct Want {
     name: u32,
+    /// rank ERROR=1 .. TRACE=5
     level: u8,
     target: u32,
     /// field names in declaration order: non-skipped parameters, then `fields(..)` entries
     fields: &'static [u32],
-    /// (kind, value) per field
-    values: &'static [(u8, u64)],
     /// 0 contextual, 1 root, 2 explicit
     parent_kind: u8,
 }
 
+/// exactly one well-formed span; `vals` = expected (kind, value) per field; `enters` =
+/// expected number of enter/exit pairs; `effects` = number of body effects of this call
 fn check_span(w: &Want, vals: &[(u8, u64)], enters: usize, effects: usize) {
     assert!(REC.new_spans.load(Relaxed) == 1);
     assert!(REC.is_span_kind.load(Relaxed));
@@ -459,6 +505,7 @@ fn check_span(w: &Want, vals: &[(u8, u64)], enters: usize, effects: usize) {
     assert!(REC.target_h.load(Relaxed) == w.target);
     assert!(REC.nfields.load(Relaxed) == w.fields.len());
     assert!(REC.nvalues.load(Relaxed) == w.fields.len());
+    assert!(w.fields.len() <= MAXF && vals.len() == w.fields.len());
     macro_rules! one {
         ($i:expr) => {
             if $i < w.fields.len() {
@@ -475,12 +522,12 @@ fn check_span(w: &Want, vals: &[(u8, u64)], enters: usize, effects: usize) {
     one!(3);
     one!(4);
     one!(5);
-    assert!(w.fields.len() <= MAXF && vals.len() == w.fields.len());
     assert!(REC.parent_kind.load(Relaxed) == w.parent_kind);
     assert!(REC.depth_at_new.load(Relaxed) == 0);
     assert!(REC.records.load(Relaxed) == 0);
     assert!(REC.enters.load(Relaxed) == enters);
     assert!(REC.exits.load(Relaxed) == enters);
+    assert!(enters >= 1);
     assert!(REC.depth.load(Relaxed) == 0);
     assert!(REC.max_depth.load(Relaxed) == 1);
     assert!(REC.id_mismatch.load(Relaxed) == 0);
@@ -494,6 +541,7 @@ fn check_no_event() {
     assert!(REC.events.load(Relaxed) == 0);
 }
 
+/// exactly one event, received while the span was entered, with one value under `field`
 fn check_event(level: u8, target: u32, field: u32) {
     assert!(REC.events.load(Relaxed) == 1);
     assert!(REC.ev_level.load(Relaxed) == level);
@@ -503,6 +551,18 @@ fn check_event(level: u8, target: u32, field: u32) {
     assert!(REC.ev_nvalues.load(Relaxed) == 1);
     assert!(REC.ev_field_h.load(Relaxed) == field);
     assert!(REC.ev_kind.load(Relaxed) == K_DEBUG);
+}
+
+/// the event's value went through exactly one Debug (or Display) call on the marker byte `b`
+fn check_fmt(display: bool, b: u8) {
+    assert!(FMT_DBG.load(Relaxed) == if display { 0 } else { 1 });
+    assert!(FMT_DSP.load(Relaxed) == if display { 1 } else { 0 });
+    assert!(FMT_VAL.load(Relaxed) == b as u32);
+}
+
+/// `enabled()` is consulted once per callsite hit iff the cached interest is `sometimes`
+fn check_asked(always: bool, hits: usize) {
+    assert!(REC.asked.load(Relaxed) == if always { 0 } else { hits });
 }
 
 /// both twins from the same tokens; `TARGET` is the default span target of the instrumented one
@@ -518,6 +578,71 @@ macro_rules! twin {
             use super::*;
             $($item)*
         }
+    };
+}
+
+/// twins that are methods of a small struct `Acc { v, d }` (one struct type per twin)
+macro_rules! twin_impl {
+    ( [$($attr:tt)*] $($item:tt)* ) => {
+        pub mod inst {
+            use super::*;
+            pub const TARGET: &str = module_path!();
+            pub struct Acc { pub v: u32, pub d: Dc }
+            impl core::fmt::Debug for Acc {
+                fn fmt(&self, _: &mut core::fmt::Formatter<'_>) -> core::fmt::Result { Ok(()) }
+            }
+            impl Acc {
+                #[$($attr)*]
+                $($item)*
+            }
+        }
+        pub mod plain {
+            use super::*;
+            pub struct Acc { pub v: u32, pub d: Dc }
+            impl Acc {
+                $($item)*
+            }
+        }
+    };
+}
+
+macro_rules! proof_a {
+    ($name:ident, $u:literal, $body:block) => {
+        #[kani::proof]
+        #[kani::unwind($u)]
+        #[kani::stub(std::rt::thread_cleanup, noop)]
+        #[kani::stub(core::fmt::write, fmt_write_stub)]
+        fn $name() $body
+    };
+}
+/// B: `MacroCallsite::register` stubbed, formatting stubbed (values are not formatted)
+macro_rules! proof_b {
+    ($name:ident, $u:literal, $body:block) => {
+        #[kani::proof]
+        #[kani::unwind($u)]
+        #[kani::stub(std::rt::thread_cleanup, noop)]
+        #[kani::stub(core::fmt::write, fmt_write_stub)]
+        #[kani::stub(tracing::__macro_support::MacroCallsite::register, register_stub)]
+        fn $name() $body
+    };
+}
+/// B with the real `core::fmt::write`: the collector formats `ret`/`err` values
+macro_rules! proof_bf {
+    ($name:ident, $u:literal, $body:block) => {
+        #[kani::proof]
+        #[kani::unwind($u)]
+        #[kani::stub(std::rt::thread_cleanup, noop)]
+        #[kani::stub(tracing::__macro_support::MacroCallsite::register, register_stub)]
+        fn $name() $body
+    };
+}
+/// K: real registry (no register stub), real `core::fmt::write`
+macro_rules! proof_k {
+    ($name:ident, $u:literal, $body:block) => {
+        #[kani::proof]
+        #[kani::unwind($u)]
+        #[kani::stub(std::rt::thread_cleanup, noop)]
+        fn $name() $body
     };
 }
 
@@ -539,12 +664,12 @@ impl Future for Leaf {
     }
 }
 
-/// drives `f` to completion with a no-op waker; returns (output, number of polls)
+/// drives `f` to completion with a no-op waker (straight-line, at most four polls; a poll
+/// beyond `max_polls` is a failure); returns (output, number of polls)
 fn drive<F: Future>(f: F, max_polls: usize) -> (F::Output, usize) {
     let waker = unsafe { Waker::from_raw(RawWaker::new(core::ptr::null(), &WAKER_VT)) };
     let mut cx = Context::from_waker(&waker);
     let mut f = core::pin::pin!(f);
-    // straight-line: at most four polls
     if let Poll::Ready(x) = f.as_mut().poll(&mut cx) {
         return (x, 1);
     }
@@ -563,9 +688,23 @@ fn drive<F: Future>(f: F, max_polls: usize) -> (F::Output, usize) {
     panic!("future not ready after four polls")
 }
 
-// ================================================================== corpus
+pub struct Pt {
+    pub x: u8,
+    pub y: u8,
+}
 
-// ---- p01: by-value primitives, recorded as typed values; value return
+/// a fallible helper for `?`
+pub fn step(a: u8) -> Result<u8, Mark> {
+    if a % 3 == 0 {
+        Err(Mark(a))
+    } else {
+        Ok(a / 3)
+    }
+}
+
+// ================================================================== corpus (sync)
+
+// ---- p01: by-value primitives recorded as typed values; value return
 pub mod p01 {
     use super::*;
     twin! { [instrument]
@@ -574,111 +713,414 @@ pub mod p01 {
             if b { a as u32 * 3 } else { a as u32 + 1 }
         }
     }
+    pub type In = (u8, bool);
+    pub fn go(i: bool, (a, b): In) -> (u32, Eff) {
+        let r = if i { inst::f(a, b) } else { plain::f(a, b) };
+        (r, take())
+    }
+    pub const WANT: Want =
+        Want { name: sh("f"), level: 3, target: sh(inst::TARGET), fields: &[sh("a"), sh("b")], parent_kind: 0 };
+}
+proof_a!(c17_a_p01, 2, {
+    let x: p01::In = kani::any();
+    let (r, _) = check_a(p01::go, x);
+    kani::cover!(x.1 && r == 765);
+    kani::cover!(!x.1);
+});
+proof_b!(c17_b_p01, 3, {
+    let x: p01::In = kani::any();
+    let always: bool = kani::any();
+    let (r, e) = check_b(p01::go, x, always);
+    check_span(&p01::WANT, &[(K_U64, x.0 as u64), (K_BOOL, x.1 as u64)], 1, e.n);
+    check_no_event();
+    check_asked(always, 1);
+    kani::cover!(always && x.1 && r == 765);
+    kani::cover!(!always && !x.1);
+});
+proof_k!(c17_k_p01, 3, {
+    k_init();
+    let _ = p01::go(true, (0, false));
+    let x: p01::In = kani::any();
+    let ((r, e), always) = check_k(p01::go, x, 1);
+    check_span(&p01::WANT, &[(K_U64, x.0 as u64), (K_BOOL, x.1 as u64)], 1, e.n);
+    check_no_event();
+    check_asked(always, 1);
+    kani::cover!(always && x.1);
+    kani::cover!(!always && !x.1);
+});
+
+// ---- p02: by-reference primitives (recorded through the reference)
+pub mod p02 {
+    use super::*;
+    twin! { [instrument]
+        pub fn rf(r: &u32, k: &bool) -> u32 {
+            fx(*r);
+            if *k { r.wrapping_add(1) } else { *r }
+        }
+    }
+    pub type In = (u32, bool);
+    pub fn go(i: bool, (r, k): In) -> (u32, Eff) {
+        let o = if i { inst::rf(&r, &k) } else { plain::rf(&r, &k) };
+        (o, take())
+    }
+    pub const WANT: Want =
+        Want { name: sh("rf"), level: 3, target: sh(inst::TARGET), fields: &[sh("r"), sh("k")], parent_kind: 0 };
+}
+proof_a!(c17_a_p02, 2, {
+    let x: p02::In = kani::any();
+    let (r, _) = check_a(p02::go, x);
+    kani::cover!(x.1 && r == 0);
+});
+proof_b!(c17_b_p02, 3, {
+    let x: p02::In = kani::any();
+    let always: bool = kani::any();
+    let (r, e) = check_b(p02::go, x, always);
+    check_span(&p02::WANT, &[(K_U64, x.0 as u64), (K_BOOL, x.1 as u64)], 1, e.n);
+    check_no_event();
+    kani::cover!(x.1 && r == 0);
+});
+
+// ---- p03: `&mut` argument, skipped; unit return
+pub mod p03 {
+    use super::*;
+    twin! { [instrument(skip(m))]
+        pub fn mr(m: &mut u32, d: u8) {
+            fx(*m);
+            *m = m.wrapping_mul(3).wrapping_add(d as u32);
+            if d == 0 {
+                return;
+            }
+            fx(d as u32);
+            *m ^= 1;
+        }
+    }
+    pub type In = (u32, u8);
+    pub fn go(i: bool, (m0, d): In) -> (u32, Eff) {
+        let mut m = m0;
+        if i { inst::mr(&mut m, d) } else { plain::mr(&mut m, d) };
+        (m, take())
+    }
+    pub const WANT: Want =
+        Want { name: sh("mr"), level: 3, target: sh(inst::TARGET), fields: &[sh("d")], parent_kind: 0 };
+}
+proof_a!(c17_a_p03, 2, {
+    let x: p03::In = kani::any();
+    let (_, e) = check_a(p03::go, x);
+    kani::cover!(e.n == 1);
+    kani::cover!(e.n == 2);
+});
+proof_b!(c17_b_p03, 2, {
+    let x: p03::In = kani::any();
+    let always: bool = kani::any();
+    let (_, e) = check_b(p03::go, x, always);
+    check_span(&p03::WANT, &[(K_U64, x.1 as u64)], 1, e.n);
+    check_no_event();
+    kani::cover!(e.n == 1 && always);
+    kani::cover!(e.n == 2 && !always);
+});
+
+// ---- p04: `&mut` argument recorded (value at entry), bool return
+pub mod p04 {
+    use super::*;
+    twin! { [instrument]
+        pub fn mq(m: &mut u32) -> bool {
+            let old = *m;
+            *m = old.rotate_left(3);
+            fx(old);
+            old & 1 == 1
+        }
+    }
+    pub type In = u32;
+    pub fn go(i: bool, m0: In) -> (bool, u32, Eff) {
+        let mut m = m0;
+        let r = if i { inst::mq(&mut m) } else { plain::mq(&mut m) };
+        (r, m, take())
+    }
+    pub const WANT: Want =
+        Want { name: sh("mq"), level: 3, target: sh(inst::TARGET), fields: &[sh("m")], parent_kind: 0 };
+}
+proof_a!(c17_a_p04, 2, {
+    let x: p04::In = kani::any();
+    let (r, m, _) = check_a(p04::go, x);
+    kani::cover!(r && m != x);
+});
+proof_b!(c17_b_p04, 2, {
+    let x: p04::In = kani::any();
+    let always: bool = kani::any();
+    let (r, m, e) = check_b(p04::go, x, always);
+    check_span(&p04::WANT, &[(K_U64, x as u64)], 1, e.n);
+    check_no_event();
+    kani::cover!(r && m != x);
+});
+
+// ---- p05: destructured tuple and struct patterns (each binding recorded with Debug)
+pub mod p05 {
+    use super::*;
+    twin! { [instrument]
+        pub fn ds((a, b): (u8, u8), Pt { x, y }: Pt) -> u8 {
+            fx(a as u32);
+            fx(y as u32);
+            a.wrapping_add(b) ^ x.wrapping_sub(y)
+        }
+    }
+    pub type In = (u8, u8, u8, u8);
+    pub fn go(i: bool, (a, b, x, y): In) -> (u8, Eff) {
+        let r = if i { inst::ds((a, b), Pt { x, y }) } else { plain::ds((a, b), Pt { x, y }) };
+        (r, take())
+    }
     pub const WANT: Want = Want {
-        name: sh("f"), level: 3, target: sh(inst::TARGET),
-        fields: &[sh("a"), sh("b")], values: &[], parent_kind: 0,
+        name: sh("ds"), level: 3, target: sh(inst::TARGET),
+        fields: &[sh("a"), sh("b"), sh("x"), sh("y")], parent_kind: 0,
     };
 }
-
-#[kani::proof]
-#[kani::unwind(2)]
-#[kani::stub(std::rt::thread_cleanup, noop)]
-#[kani::stub(core::fmt::write, fmt_write_stub)]
-fn c17_a_p01() {
-    a_init();
-    let (a, b): (u8, bool) = kani::any();
-    let rp = p01::plain::f(a, b);
-    let ep = take();
-    let ri = p01::inst::f(a, b);
-    let ei = take();
-    assert!(rp == ri);
-    assert!(ep == ei);
-    assert!(FIELD_EVALS.load(Relaxed) == 0);
-    kani::cover!(b && ri == 765);
-    kani::cover!(!b);
-}
-
-#[kani::proof]
-#[kani::unwind(3)]
-#[kani::stub(std::rt::thread_cleanup, noop)]
-#[kani::stub(core::fmt::write, fmt_write_stub)]
-fn c17_b_p01() {
-    b_init();
-    let _ = p01::inst::f(0, false);
-    let always = b_arm(1);
-    let (a, b): (u8, bool) = kani::any();
-    let rp = p01::plain::f(a, b);
-    let ep = take();
-    reset_all();
-    let g = b_install();
-    let ri = p01::inst::f(a, b);
-    drop(g);
-    let ei = take();
-    assert!(rp == ri);
-    assert!(ep == ei);
-    check_span(&p01::WANT, &[(K_U64, a as u64), (K_BOOL, b as u64)], 1, 1);
+proof_a!(c17_a_p05, 2, {
+    let x: p05::In = kani::any();
+    let (r, _) = check_a(p05::go, x);
+    kani::cover!(r == 255);
+});
+proof_b!(c17_b_p05, 5, {
+    let x: p05::In = kani::any();
+    let always: bool = kani::any();
+    let (r, e) = check_b(p05::go, x, always);
+    check_span(&p05::WANT, &[(K_DEBUG, 0), (K_DEBUG, 0), (K_DEBUG, 0), (K_DEBUG, 0)], 1, e.n);
     check_no_event();
-    assert!(REC.asked.load(Relaxed) == if always { 0 } else { 1 });
-    kani::cover!(always && b);
-    kani::cover!(!always && !b);
-}
+    kani::cover!(r == 255);
+});
 
-#[kani::proof]
-#[kani::unwind(3)]
-#[kani::stub(std::rt::thread_cleanup, noop)]
-#[kani::stub(core::fmt::write, fmt_write_stub)]
-fn c17_bt_p01() {
-    b_init();
-    let _ = p01::inst::f(0, false);
-    let always = b_arm_with(1, true);
-    let (a, b): (u8, bool) = kani::any();
-    let rp = p01::plain::f(a, b);
-    let ep = take();
-    reset_all();
-    let g = b_install();
-    let ri = p01::inst::f(a, b);
-    drop(g);
-    let ei = take();
-    assert!(rp == ri);
-    assert!(ep == ei);
-    check_span(&p01::WANT, &[(K_U64, a as u64), (K_BOOL, b as u64)], 1, 1);
+// ---- p06: generic parameter (T: Debug + Copy + Into<u32>)
+pub mod p06 {
+    use super::*;
+    twin! { [instrument]
+        pub fn ge<T: core::fmt::Debug + Copy + Into<u32>>(t: T, n: u8) -> u32 {
+            let v: u32 = t.into();
+            fx(v);
+            v.wrapping_mul(n as u32)
+        }
+    }
+    pub type In = (u16, u8);
+    pub fn go(i: bool, (t, n): In) -> (u32, Eff) {
+        let r = if i { inst::ge(t, n) } else { plain::ge(t, n) };
+        (r, take())
+    }
+    pub const WANT: Want =
+        Want { name: sh("ge"), level: 3, target: sh(inst::TARGET), fields: &[sh("t"), sh("n")], parent_kind: 0 };
+}
+proof_a!(c17_a_p06, 2, {
+    let x: p06::In = kani::any();
+    let (r, _) = check_a(p06::go, x);
+    kani::cover!(r == 65535 * 255);
+});
+proof_b!(c17_b_p06, 3, {
+    let x: p06::In = kani::any();
+    let always: bool = kani::any();
+    let (r, e) = check_b(p06::go, x, always);
+    check_span(&p06::WANT, &[(K_DEBUG, 0), (K_U64, x.1 as u64)], 1, e.n);
     check_no_event();
-    assert!(REC.asked.load(Relaxed) == if always { 0 } else { 1 });
-    kani::cover!(always && b);
-    
-}
+    kani::cover!(r == 65535 * 255);
+});
 
-#[kani::proof]
-#[kani::unwind(3)]
-#[kani::stub(std::rt::thread_cleanup, noop)]
-#[kani::stub(core::fmt::write, fmt_write_stub)]
-fn c17_bf_p01() {
-    b_init();
-    let _ = p01::inst::f(0, false);
-    let always = b_arm_with(1, false);
-    let (a, b): (u8, bool) = kani::any();
-    let rp = p01::plain::f(a, b);
-    let ep = take();
-    reset_all();
-    let g = b_install();
-    let ri = p01::inst::f(a, b);
-    drop(g);
-    let ei = take();
-    assert!(rp == ri);
-    assert!(ep == ei);
-    check_span(&p01::WANT, &[(K_U64, a as u64), (K_BOOL, b as u64)], 1, 1);
+// ---- p07: `impl Trait` argument (a closure; must be skipped, closures are not Debug)
+pub mod p07 {
+    use super::*;
+    twin! { [instrument(skip(g))]
+        pub fn it(g: impl Fn(u8) -> u8, x: u8) -> u8 {
+            let y = g(x);
+            fx(y as u32);
+            g(y)
+        }
+    }
+    pub type In = (u8, u8);
+    pub fn go(i: bool, (k, x): In) -> (u8, Eff) {
+        let r = if i {
+            inst::it(move |v: u8| { fx(1000); v.wrapping_mul(3) ^ k }, x)
+        } else {
+            plain::it(move |v: u8| { fx(1000); v.wrapping_mul(3) ^ k }, x)
+        };
+        (r, take())
+    }
+    pub const WANT: Want =
+        Want { name: sh("it"), level: 3, target: sh(inst::TARGET), fields: &[sh("x")], parent_kind: 0 };
+}
+proof_a!(c17_a_p07, 2, {
+    let x: p07::In = kani::any();
+    let (r, e) = check_a(p07::go, x);
+    assert!(e.n == 3);
+    kani::cover!(r == 7);
+});
+proof_b!(c17_b_p07, 2, {
+    let x: p07::In = kani::any();
+    let always: bool = kani::any();
+    let (r, e) = check_b(p07::go, x, always);
+    check_span(&p07::WANT, &[(K_U64, x.1 as u64)], 1, e.n);
     check_no_event();
-    assert!(REC.asked.load(Relaxed) == if always { 0 } else { 1 });
-    
-    kani::cover!(!always && !b);
-}
+    kani::cover!(r == 7);
+});
 
-// ---- p12: skip + fields(expr) + err(Debug) + ret, `?`, early return, by-ref, drop-counted by-value
+// ---- p08: `self` by value (recorded with Debug), owns a drop-counted field
+pub mod p08 {
+    use super::*;
+    twin_impl! { [instrument]
+        pub fn sv(self, k: u8) -> u32 {
+            fx(self.v);
+            if k == 0 {
+                return self.v;
+            }
+            self.v.wrapping_add(self.d.0 as u32 * k as u32)
+        }
+    }
+    pub type In = (u32, u8, u8);
+    pub fn go(i: bool, (v, d, k): In) -> (u32, Eff) {
+        let r = if i { inst::Acc { v, d: Dc(d) }.sv(k) } else { plain::Acc { v, d: Dc(d) }.sv(k) };
+        (r, take())
+    }
+    pub const WANT: Want =
+        Want { name: sh("sv"), level: 3, target: sh(inst::TARGET), fields: &[sh("self"), sh("k")], parent_kind: 0 };
+}
+proof_a!(c17_a_p08, 2, {
+    let x: p08::In = kani::any();
+    let (_, e) = check_a(p08::go, x);
+    assert!(e.drops == 1);
+    kani::cover!(x.2 == 0);
+    kani::cover!(x.2 != 0);
+});
+proof_b!(c17_b_p08, 3, {
+    let x: p08::In = kani::any();
+    let always: bool = kani::any();
+    let (_, e) = check_b(p08::go, x, always);
+    assert!(e.drops == 1);
+    check_span(&p08::WANT, &[(K_DEBUG, 0), (K_U64, x.2 as u64)], 1, e.n);
+    check_no_event();
+    kani::cover!(x.2 == 0);
+    kani::cover!(x.2 != 0);
+});
+
+// ---- p09: `&self`, skipped
+pub mod p09 {
+    use super::*;
+    twin_impl! { [instrument(skip(self))]
+        pub fn sr(&self, k: u8) -> u32 {
+            fx(k as u32);
+            self.v ^ (k as u32)
+        }
+    }
+    pub type In = (u32, u8);
+    pub fn go(i: bool, (v, k): In) -> (u32, Eff) {
+        let r = if i { inst::Acc { v, d: Dc(0) }.sr(k) } else { plain::Acc { v, d: Dc(0) }.sr(k) };
+        (r, take())
+    }
+    pub const WANT: Want =
+        Want { name: sh("sr"), level: 3, target: sh(inst::TARGET), fields: &[sh("k")], parent_kind: 0 };
+}
+proof_a!(c17_a_p09, 2, {
+    let x: p09::In = kani::any();
+    let (r, e) = check_a(p09::go, x);
+    assert!(e.drops == 1);
+    kani::cover!(r == 0 && x.1 == 9);
+});
+proof_b!(c17_b_p09, 2, {
+    let x: p09::In = kani::any();
+    let always: bool = kani::any();
+    let (r, e) = check_b(p09::go, x, always);
+    check_span(&p09::WANT, &[(K_U64, x.1 as u64)], 1, e.n);
+    check_no_event();
+    kani::cover!(r == 0 && x.1 == 9);
+});
+
+// ---- p10: `&mut self`; `fields(..)` expressions over `self` and over an argument,
+//      one of them with a countable evaluation
+pub mod p10 {
+    use super::*;
+    twin_impl! { [instrument(skip(self, d), fields(v = self.v, e = probe(d as u64 + 2)))]
+        pub fn sm(&mut self, d: u8) -> u32 {
+            self.v = self.v.wrapping_add(d as u32);
+            fx(self.v);
+            self.v
+        }
+    }
+    pub type In = (u32, u8);
+    pub fn go(i: bool, (v, d): In) -> (u32, u32, Eff) {
+        if i {
+            let mut a = inst::Acc { v, d: Dc(0) };
+            let r = a.sm(d);
+            let fin = a.v;
+            core::mem::forget(a);
+            (r, fin, take())
+        } else {
+            let mut a = plain::Acc { v, d: Dc(0) };
+            let r = a.sm(d);
+            let fin = a.v;
+            core::mem::forget(a);
+            (r, fin, take())
+        }
+    }
+    pub const WANT: Want =
+        Want { name: sh("sm"), level: 3, target: sh(inst::TARGET), fields: &[sh("v"), sh("e")], parent_kind: 0 };
+}
+proof_a!(c17_a_p10, 2, {
+    let x: p10::In = kani::any();
+    let (r, fin, e) = check_a(p10::go, x);
+    assert!(e.drops == 0 && r == fin);
+    kani::cover!(fin < x.0);
+});
+proof_b!(c17_b_p10, 3, {
+    let x: p10::In = kani::any();
+    let always: bool = kani::any();
+    let (r, fin, e) = check_b(p10::go, x, always);
+    // the field expression sees the receiver *before* the body runs, and runs exactly once
+    check_span(&p10::WANT, &[(K_U64, x.0 as u64), (K_U64, x.1 as u64 + 2)], 1, e.n);
+    assert!(FIELD_EVALS.load(Relaxed) == 1);
+    check_no_event();
+    kani::cover!(fin < x.0);
+});
+
+// ---- p11: `err` (default: Display) on a Result
+pub mod p11 {
+    use super::*;
+    twin! { [instrument(err)]
+        pub fn er(a: u8) -> Result<u8, Mark> {
+            fx(a as u32);
+            if a & 1 == 1 { Err(Mark(a >> 1)) } else { Ok(a >> 1) }
+        }
+    }
+    pub type In = u8;
+    pub fn go(i: bool, a: In) -> (Result<u8, Mark>, Eff) {
+        let r = if i { inst::er(a) } else { plain::er(a) };
+        (r, take())
+    }
+    pub const WANT: Want =
+        Want { name: sh("er"), level: 3, target: sh(inst::TARGET), fields: &[sh("a")], parent_kind: 0 };
+}
+proof_a!(c17_a_p11, 2, {
+    let x: p11::In = kani::any();
+    let (r, _) = check_a(p11::go, x);
+    kani::cover!(r.is_ok());
+    kani::cover!(r.is_err());
+});
+proof_bf!(c17_b_p11, 4, {
+    let x: p11::In = kani::any();
+    let always: bool = kani::any();
+    REC.format_values.store(true, Relaxed);
+    let (r, e) = check_b(p11::go, x, always);
+    check_span(&p11::WANT, &[(K_U64, x as u64)], 1, e.n);
+    match r {
+        Ok(_) => {
+            check_no_event();
+            check_asked(always, 1);
+        }
+        Err(m) => {
+            check_event(1, sh(p11::inst::TARGET), sh("error"));
+            check_fmt(true, m.0);
+            check_asked(always, 2);
+        }
+    }
+    kani::cover!(r.is_ok() && always);
+    kani::cover!(r.is_err() && !always);
+});
+
+// ---- p12: skip + fields(expr) + err(Debug) + ret, `?`, early returns, by-ref and
+//      drop-counted by-value arguments
 pub mod p12 {
     use super::*;
-    pub fn step(a: u8) -> Result<u8, Mark> {
-        if a % 3 == 0 { Err(Mark(a)) } else { Ok(a / 3) }
-    }
     twin! { [instrument(skip(d), fields(s = probe(u64::from(a) + 1)), err(Debug), ret)]
         pub fn f(a: u8, r: &u8, d: Dc) -> Result<Mark, Mark> {
             fx(1);
@@ -694,81 +1136,500 @@ pub mod p12 {
             Ok(Mark(q ^ *r))
         }
     }
+    pub type In = (u8, u8, u8);
+    pub fn go(i: bool, (a, r, d): In) -> (Result<Mark, Mark>, Eff) {
+        let o = if i { inst::f(a, &r, Dc(d)) } else { plain::f(a, &r, Dc(d)) };
+        (o, take())
+    }
     pub const WANT: Want = Want {
         name: sh("f"), level: 3, target: sh(inst::TARGET),
-        fields: &[sh("a"), sh("r"), sh("s")], values: &[], parent_kind: 0,
+        fields: &[sh("a"), sh("r"), sh("s")], parent_kind: 0,
     };
-}
-
-fn same_res(x: &Result<Mark, Mark>, y: &Result<Mark, Mark>) -> bool {
-    match (x, y) {
-        (Ok(a), Ok(b)) => a.0 == b.0,
-        (Err(a), Err(b)) => a.0 == b.0,
-        _ => false,
+    pub fn check(x: In, o: &Result<Mark, Mark>, e: &Eff, always: bool) {
+        assert!(e.drops == 1);
+        check_span(&WANT, &[(K_U64, x.0 as u64), (K_U64, x.1 as u64), (K_U64, x.0 as u64 + 1)], 1, e.n);
+        assert!(FIELD_EVALS.load(Relaxed) == 1);
+        match o {
+            Ok(m) => {
+                check_event(3, sh(inst::TARGET), sh("return"));
+                check_fmt(false, m.0);
+            }
+            Err(m) => {
+                check_event(1, sh(inst::TARGET), sh("error"));
+                check_fmt(false, m.0);
+            }
+        }
+        check_asked(always, 2);
     }
 }
-
-#[kani::proof]
-#[kani::unwind(2)]
-#[kani::stub(std::rt::thread_cleanup, noop)]
-#[kani::stub(core::fmt::write, fmt_write_stub)]
-fn c17_a_p12() {
-    a_init();
-    let (a, r, d): (u8, u8, u8) = kani::any();
-    let rp = p12::plain::f(a, &r, Dc(d));
-    let ep = take();
-    let ri = p12::inst::f(a, &r, Dc(d));
-    let ei = take();
-    assert!(same_res(&rp, &ri));
-    assert!(ep == ei);
-    assert!(ep.drops == 1);
-    assert!(FIELD_EVALS.load(Relaxed) == 0);
-    kani::cover!(ri.is_ok() && r == 0);
-    kani::cover!(ri.is_ok() && r != 0);
-    kani::cover!(ri.is_err() && ei.n == 1);
-    kani::cover!(ri.is_err() && ei.n == 2);
-}
-
-#[kani::proof]
-#[kani::unwind(4)]
-#[kani::stub(std::rt::thread_cleanup, noop)]
-fn c17_b_p12() {
-    b_init();
-    let _ = p12::inst::f(1, &9, Dc(0)); // Ok path: registers span + ret callsites
-    let _ = p12::inst::f(0, &9, Dc(0)); // Err path: registers the err callsite
-    let always = b_arm(3);
+proof_a!(c17_a_p12, 2, {
+    let x: p12::In = kani::any();
+    let (o, e) = check_a(p12::go, x);
+    assert!(e.drops == 1);
+    kani::cover!(o.is_ok() && x.1 == 0);
+    kani::cover!(o.is_ok() && x.1 != 0);
+    kani::cover!(o.is_err() && e.n == 1);
+    kani::cover!(o.is_err() && e.n == 2);
+});
+proof_bf!(c17_b_p12, 4, {
+    let x: p12::In = kani::any();
+    let always: bool = kani::any();
     REC.format_values.store(true, Relaxed);
-    let (a, r, d): (u8, u8, u8) = kani::any();
-    let rp = p12::plain::f(a, &r, Dc(d));
-    let ep = take();
-    reset_all();
-    let g = b_install();
-    let ri = p12::inst::f(a, &r, Dc(d));
-    drop(g);
-    let ei = take();
-    assert!(same_res(&rp, &ri));
-    assert!(ep == ei);
-    check_span(&p12::WANT, &[(K_U64, a as u64), (K_U64, r as u64), (K_U64, a as u64 + 1)], 1, ei.n);
-    assert!(FIELD_EVALS.load(Relaxed) == 1);
-    match ri {
+    let (o, e) = check_b(p12::go, x, always);
+    p12::check(x, &o, &e, always);
+    kani::cover!(always && o.is_ok() && x.1 == 0);
+    kani::cover!(!always && o.is_ok() && x.1 != 0);
+    kani::cover!(o.is_err() && e.n == 1);
+    kani::cover!(o.is_err() && e.n == 2);
+});
+proof_k!(c17_k_p12, 4, {
+    k_init();
+    let _ = p12::go(true, (1, 9, 0)); // Ok path: registers the span and `ret` callsites
+    let _ = p12::go(true, (0, 9, 0)); // Err path: registers the `err` callsite
+    REC.format_values.store(true, Relaxed);
+    let x: p12::In = kani::any();
+    let ((o, e), always) = check_k(p12::go, x, 3);
+    p12::check(x, &o, &e, always);
+    kani::cover!(always && o.is_ok() && x.1 == 0);
+    kani::cover!(!always && o.is_ok() && x.1 != 0);
+    kani::cover!(o.is_err() && e.n == 1);
+    kani::cover!(o.is_err() && e.n == 2);
+});
+
+// ---- p13: `ret` (default: Debug) on a plain value, early return
+pub mod p13 {
+    use super::*;
+    twin! { [instrument(ret)]
+        pub fn rt(a: u8, b: u8) -> Mark {
+            if a > b {
+                return Mark(0);
+            }
+            fx(b as u32);
+            Mark(b - a)
+        }
+    }
+    pub type In = (u8, u8);
+    pub fn go(i: bool, (a, b): In) -> (Mark, Eff) {
+        let r = if i { inst::rt(a, b) } else { plain::rt(a, b) };
+        (r, take())
+    }
+    pub const WANT: Want =
+        Want { name: sh("rt"), level: 3, target: sh(inst::TARGET), fields: &[sh("a"), sh("b")], parent_kind: 0 };
+}
+proof_a!(c17_a_p13, 2, {
+    let x: p13::In = kani::any();
+    let (_, e) = check_a(p13::go, x);
+    kani::cover!(e.n == 0);
+    kani::cover!(e.n == 1);
+});
+proof_bf!(c17_b_p13, 4, {
+    let x: p13::In = kani::any();
+    let always: bool = kani::any();
+    REC.format_values.store(true, Relaxed);
+    let (r, e) = check_b(p13::go, x, always);
+    check_span(&p13::WANT, &[(K_U64, x.0 as u64), (K_U64, x.1 as u64)], 1, e.n);
+    check_event(3, sh(p13::inst::TARGET), sh("return"));
+    check_fmt(false, r.0);
+    check_asked(always, 2);
+    kani::cover!(e.n == 0);
+    kani::cover!(e.n == 1 && r.0 == 200);
+});
+
+// ---- p14: name / level (string) / target
+pub mod p14 {
+    use super::*;
+    twin! { [instrument(name = "nm", level = "debug", target = "tg", skip(a))]
+        pub fn nl(a: u8) -> u8 {
+            fx(a as u32);
+            a.reverse_bits()
+        }
+    }
+    pub type In = u8;
+    pub fn go(i: bool, a: In) -> (u8, Eff) {
+        let r = if i { inst::nl(a) } else { plain::nl(a) };
+        (r, take())
+    }
+    pub const WANT: Want = Want { name: sh("nm"), level: 4, target: sh("tg"), fields: &[], parent_kind: 0 };
+}
+proof_a!(c17_a_p14, 2, {
+    let x: p14::In = kani::any();
+    let (r, _) = check_a(p14::go, x);
+    kani::cover!(r == 1);
+});
+proof_b!(c17_b_p14, 2, {
+    let x: p14::In = kani::any();
+    let always: bool = kani::any();
+    let (r, e) = check_b(p14::go, x, always);
+    check_span(&p14::WANT, &[], 1, e.n);
+    check_no_event();
+    kani::cover!(r == 1 && always);
+    kani::cover!(!always);
+});
+proof_k!(c17_k_p14, 2, {
+    k_init();
+    let _ = p14::go(true, 0);
+    let x: p14::In = kani::any();
+    let ((r, e), always) = check_k(p14::go, x, 1);
+    check_span(&p14::WANT, &[], 1, e.n);
+    check_no_event();
+    check_asked(always, 1);
+    kani::cover!(r == 1 && always);
+    kani::cover!(!always);
+});
+
+// ---- p15: level given as a path; `ret` inherits the span's level
+pub mod p15 {
+    use super::*;
+    twin! { [instrument(level = Level::WARN, ret, skip(a))]
+        pub fn lp(a: u8) -> Mark {
+            fx(7);
+            Mark(a ^ 0x55)
+        }
+    }
+    pub type In = u8;
+    pub fn go(i: bool, a: In) -> (Mark, Eff) {
+        let r = if i { inst::lp(a) } else { plain::lp(a) };
+        (r, take())
+    }
+    pub const WANT: Want = Want { name: sh("lp"), level: 2, target: sh(inst::TARGET), fields: &[], parent_kind: 0 };
+}
+proof_a!(c17_a_p15, 2, {
+    let x: p15::In = kani::any();
+    let (r, _) = check_a(p15::go, x);
+    kani::cover!(r.0 == 0);
+});
+proof_bf!(c17_b_p15, 4, {
+    let x: p15::In = kani::any();
+    let always: bool = kani::any();
+    REC.format_values.store(true, Relaxed);
+    let (r, e) = check_b(p15::go, x, always);
+    check_span(&p15::WANT, &[], 1, e.n);
+    check_event(2, sh(p15::inst::TARGET), sh("return"));
+    check_fmt(false, r.0);
+    kani::cover!(r.0 == 0);
+});
+
+// ---- p16: numeric level, target, `err(level = ..)`, `ret(level = .., Display)`
+pub mod p16 {
+    use super::*;
+    twin! { [instrument(level = 1, target = "t2", skip(a), err(level = "warn"), ret(level = "debug", Display))]
+        pub fn lv(a: u8) -> Result<Mark, Mark> {
+            fx(a as u32);
+            let q = step(a)?;
+            Ok(Mark(q))
+        }
+    }
+    pub type In = u8;
+    pub fn go(i: bool, a: In) -> (Result<Mark, Mark>, Eff) {
+        let r = if i { inst::lv(a) } else { plain::lv(a) };
+        (r, take())
+    }
+    // numeric level 1 is TRACE (rank 5)
+    pub const WANT: Want = Want { name: sh("lv"), level: 5, target: sh("t2"), fields: &[], parent_kind: 0 };
+}
+proof_a!(c17_a_p16, 2, {
+    let x: p16::In = kani::any();
+    let (r, _) = check_a(p16::go, x);
+    kani::cover!(r.is_ok());
+    kani::cover!(r.is_err());
+});
+proof_bf!(c17_b_p16, 4, {
+    let x: p16::In = kani::any();
+    let always: bool = kani::any();
+    REC.format_values.store(true, Relaxed);
+    let (r, e) = check_b(p16::go, x, always);
+    check_span(&p16::WANT, &[], 1, e.n);
+    match r {
         Ok(m) => {
-            check_event(3, sh(p12::inst::TARGET), sh("return"));
-            assert!(FMT_DBG.load(Relaxed) == 1 && FMT_DSP.load(Relaxed) == 0);
-            assert!(FMT_VAL.load(Relaxed) == m.0 as u32);
+            check_event(4, sh("t2"), sh("return"));
+            check_fmt(true, m.0);
         }
         Err(m) => {
-            check_event(1, sh(p12::inst::TARGET), sh("error"));
-            assert!(FMT_DBG.load(Relaxed) == 1 && FMT_DSP.load(Relaxed) == 0);
-            assert!(FMT_VAL.load(Relaxed) == m.0 as u32);
+            check_event(2, sh("t2"), sh("error"));
+            check_fmt(true, m.0);
         }
     }
-    kani::cover!(always && ri.is_ok() && r == 0);
-    kani::cover!(!always && ri.is_ok() && r != 0);
-    kani::cover!(ri.is_err() && ei.n == 1);
-    kani::cover!(ri.is_err() && ei.n == 2);
-}
+    kani::cover!(r.is_ok());
+    kani::cover!(r.is_err());
+});
 
-// ---- a01: async fn, skip_all, leaf future pending n times
+// ---- p17: explicit parent (an expression over an argument)
+pub mod p17 {
+    use super::*;
+    twin! { [instrument(parent = Id::from_u64(u64::from(p) + 1), skip(p))]
+        pub fn pa(p: u8, x: u8) -> u8 {
+            fx(x as u32);
+            p ^ x
+        }
+    }
+    pub type In = (u8, u8);
+    pub fn go(i: bool, (p, x): In) -> (u8, Eff) {
+        let r = if i { inst::pa(p, x) } else { plain::pa(p, x) };
+        (r, take())
+    }
+    pub const WANT: Want =
+        Want { name: sh("pa"), level: 3, target: sh(inst::TARGET), fields: &[sh("x")], parent_kind: 2 };
+}
+proof_a!(c17_a_p17, 2, {
+    let x: p17::In = kani::any();
+    let (r, _) = check_a(p17::go, x);
+    kani::cover!(r == 0);
+});
+proof_b!(c17_b_p17, 2, {
+    let x: p17::In = kani::any();
+    let always: bool = kani::any();
+    let (r, e) = check_b(p17::go, x, always);
+    check_span(&p17::WANT, &[(K_U64, x.1 as u64)], 1, e.n);
+    assert!(REC.parent_id.load(Relaxed) == x.0 as u64 + 1);
+    check_no_event();
+    kani::cover!(r == 0 && x.0 == 255);
+});
+
+// ---- p18: `parent = None` (explicit root); unit return
+pub mod p18 {
+    use super::*;
+    twin! { [instrument(parent = None, skip(x))]
+        pub fn pr(x: u8) {
+            fx(x as u32);
+        }
+    }
+    pub type In = u8;
+    pub fn go(i: bool, x: In) -> Eff {
+        if i { inst::pr(x) } else { plain::pr(x) };
+        take()
+    }
+    pub const WANT: Want = Want { name: sh("pr"), level: 3, target: sh(inst::TARGET), fields: &[], parent_kind: 1 };
+}
+proof_a!(c17_a_p18, 2, {
+    let x: p18::In = kani::any();
+    let e = check_a(p18::go, x);
+    kani::cover!(e.n == 1);
+});
+proof_b!(c17_b_p18, 2, {
+    let x: p18::In = kani::any();
+    let always: bool = kani::any();
+    let e = check_b(p18::go, x, always);
+    check_span(&p18::WANT, &[], 1, e.n);
+    check_no_event();
+    kani::cover!(e.n == 1);
+});
+
+// ---- p19: follows_from (an iterable expression over an argument)
+pub mod p19 {
+    use super::*;
+    twin! { [instrument(follows_from = [Id::from_u64(u64::from(c) + 1)], skip(c))]
+        pub fn ff(c: u8) -> u8 {
+            fx(c as u32);
+            c.wrapping_neg()
+        }
+    }
+    pub type In = u8;
+    pub fn go(i: bool, c: In) -> (u8, Eff) {
+        let r = if i { inst::ff(c) } else { plain::ff(c) };
+        (r, take())
+    }
+    pub const WANT: Want = Want { name: sh("ff"), level: 3, target: sh(inst::TARGET), fields: &[], parent_kind: 0 };
+}
+proof_a!(c17_a_p19, 2, {
+    let x: p19::In = kani::any();
+    let (r, _) = check_a(p19::go, x);
+    kani::cover!(r == 1);
+});
+proof_b!(c17_b_p19, 2, {
+    let x: p19::In = kani::any();
+    let always: bool = kani::any();
+    let (r, e) = check_b(p19::go, x, always);
+    check_span(&p19::WANT, &[], 1, e.n);
+    assert!(REC.follows.load(Relaxed) == 1);
+    assert!(REC.follows_id.load(Relaxed) == x as u64 + 1);
+    check_no_event();
+    kani::cover!(r == 1);
+});
+
+// ---- p20: two drop-counted by-value arguments (skipped), one dropped early on one path
+pub mod p20 {
+    use super::*;
+    twin! { [instrument(skip(d, e))]
+        pub fn dc(d: Dc, e: Dc, k: bool) -> u8 {
+            fx(d.0 as u32);
+            if k {
+                let v = d.0;
+                drop(d);
+                fx(DROPS.load(Relaxed) as u32);
+                return v;
+            }
+            e.0
+        }
+    }
+    pub type In = (u8, u8, bool);
+    pub fn go(i: bool, (d, e, k): In) -> (u8, Eff) {
+        let r = if i { inst::dc(Dc(d), Dc(e), k) } else { plain::dc(Dc(d), Dc(e), k) };
+        (r, take())
+    }
+    pub const WANT: Want =
+        Want { name: sh("dc"), level: 3, target: sh(inst::TARGET), fields: &[sh("k")], parent_kind: 0 };
+}
+proof_a!(c17_a_p20, 2, {
+    let x: p20::In = kani::any();
+    let (_, e) = check_a(p20::go, x);
+    assert!(e.drops == 2);
+    kani::cover!(x.2);
+    kani::cover!(!x.2);
+});
+proof_b!(c17_b_p20, 2, {
+    let x: p20::In = kani::any();
+    let always: bool = kani::any();
+    let (_, e) = check_b(p20::go, x, always);
+    assert!(e.drops == 2);
+    check_span(&p20::WANT, &[(K_BOOL, x.2 as u64)], 1, e.n);
+    check_no_event();
+    kani::cover!(x.2);
+    kani::cover!(!x.2);
+});
+
+// ---- p21: drop-counted by-value argument that IS recorded (by reference, Debug)
+pub mod p21 {
+    use super::*;
+    twin! { [instrument]
+        pub fn dr(d: Dc) -> u8 {
+            fx(d.0 as u32);
+            d.0 / 2
+        }
+    }
+    pub type In = u8;
+    pub fn go(i: bool, d: In) -> (u8, Eff) {
+        let r = if i { inst::dr(Dc(d)) } else { plain::dr(Dc(d)) };
+        (r, take())
+    }
+    pub const WANT: Want =
+        Want { name: sh("dr"), level: 3, target: sh(inst::TARGET), fields: &[sh("d")], parent_kind: 0 };
+}
+proof_a!(c17_a_p21, 2, {
+    let x: p21::In = kani::any();
+    let (r, e) = check_a(p21::go, x);
+    assert!(e.drops == 1);
+    kani::cover!(r == 127);
+});
+proof_b!(c17_b_p21, 2, {
+    let x: p21::In = kani::any();
+    let always: bool = kani::any();
+    let (r, e) = check_b(p21::go, x, always);
+    assert!(e.drops == 1);
+    check_span(&p21::WANT, &[(K_DEBUG, 0)], 1, e.n);
+    check_no_event();
+    kani::cover!(r == 127);
+});
+
+// ---- p22: `impl Trait` in return position
+pub mod p22 {
+    use super::*;
+    twin! { [instrument(skip(a))]
+        pub fn ir(a: u8) -> impl Into<u32> + Copy {
+            fx(a as u32);
+            a.wrapping_mul(5)
+        }
+    }
+    pub type In = u8;
+    pub fn go(i: bool, a: In) -> (u32, Eff) {
+        let r: u32 = if i { inst::ir(a).into() } else { plain::ir(a).into() };
+        (r, take())
+    }
+    pub const WANT: Want = Want { name: sh("ir"), level: 3, target: sh(inst::TARGET), fields: &[], parent_kind: 0 };
+}
+proof_a!(c17_a_p22, 2, {
+    let x: p22::In = kani::any();
+    let (r, _) = check_a(p22::go, x);
+    kani::cover!(r == 250);
+});
+proof_b!(c17_b_p22, 2, {
+    let x: p22::In = kani::any();
+    let always: bool = kani::any();
+    let (r, e) = check_b(p22::go, x, always);
+    check_span(&p22::WANT, &[], 1, e.n);
+    check_no_event();
+    kani::cover!(r == 250);
+});
+
+// ---- p23: small array by value (skipped), loop in the body
+pub mod p23 {
+    use super::*;
+    twin! { [instrument(skip(arr))]
+        pub fn ar(arr: [u8; 3], i: u8) -> u16 {
+            let mut s = 0u16;
+            let mut k = 0;
+            while k < 3 {
+                s += arr[k] as u16;
+                k += 1;
+            }
+            fx(s as u32);
+            if (i as usize) < 3 { s - arr[i as usize] as u16 } else { s }
+        }
+    }
+    pub type In = ([u8; 3], u8);
+    pub fn go(i: bool, (arr, k): In) -> (u16, Eff) {
+        let r = if i { inst::ar(arr, k) } else { plain::ar(arr, k) };
+        (r, take())
+    }
+    pub const WANT: Want =
+        Want { name: sh("ar"), level: 3, target: sh(inst::TARGET), fields: &[sh("i")], parent_kind: 0 };
+}
+proof_a!(c17_a_p23, 5, {
+    let x: p23::In = kani::any();
+    let (r, _) = check_a(p23::go, x);
+    kani::cover!(r == 765);
+    kani::cover!(r == 510 && x.1 == 2);
+});
+proof_b!(c17_b_p23, 5, {
+    let x: p23::In = kani::any();
+    let always: bool = kani::any();
+    let (r, e) = check_b(p23::go, x, always);
+    check_span(&p23::WANT, &[(K_U64, x.1 as u64)], 1, e.n);
+    check_no_event();
+    kani::cover!(r == 765);
+});
+
+// ---- p24: the body itself emits an event (arrives while the span is entered)
+pub mod p24 {
+    use super::*;
+    twin! { [instrument(skip(a))]
+        pub fn be(a: u8) {
+            fx(1);
+            if a > 9 {
+                tracing::event!(target: "bt", Level::WARN, "m");
+            }
+            fx(2);
+        }
+    }
+    pub type In = u8;
+    pub fn go(i: bool, a: In) -> Eff {
+        if i { inst::be(a) } else { plain::be(a) };
+        take()
+    }
+    pub const WANT: Want = Want { name: sh("be"), level: 3, target: sh(inst::TARGET), fields: &[], parent_kind: 0 };
+}
+proof_a!(c17_a_p24, 2, {
+    let x: p24::In = kani::any();
+    let e = check_a(p24::go, x);
+    assert!(e.n == 2);
+    kani::cover!(x > 9);
+});
+proof_b!(c17_b_p24, 2, {
+    let x: p24::In = kani::any();
+    let always: bool = kani::any();
+    let e = check_b(p24::go, x, always);
+    check_span(&p24::WANT, &[], 1, e.n);
+    if x > 9 {
+        check_event(2, sh("bt"), sh("message"));
+    } else {
+        check_no_event();
+    }
+    kani::cover!(x > 9);
+    kani::cover!(x <= 9);
+});
+
+// ================================================================== corpus (async)
+
+// ---- a01: async fn, both arguments skipped, one await that is pending n times
 pub mod a01 {
     use super::*;
     twin! { [instrument(skip(n, a))]
@@ -779,239 +1640,221 @@ pub mod a01 {
             a.wrapping_add(n)
         }
     }
-    pub const WANT: Want = Want {
-        name: sh("f"), level: 3, target: sh(inst::TARGET),
-        fields: &[], values: &[], parent_kind: 0,
-    };
-}
-
-#[kani::proof]
-#[kani::unwind(2)]
-#[kani::stub(std::rt::thread_cleanup, noop)]
-#[kani::stub(core::fmt::write, fmt_write_stub)]
-fn c17_a_a01() {
-    a_init();
-    let (n, a): (u8, u8) = kani::any();
-    kani::assume(n <= 2);
-    let (rp, pp) = drive(a01::plain::f(n, a), 3);
-    let ep = take();
-    let (ri, pi) = drive(a01::inst::f(n, a), 3);
-    let ei = take();
-    assert!(rp == ri && pp == pi && pp == n as usize + 1);
-    assert!(ep == ei);
-    kani::cover!(n == 0);
-    kani::cover!(n == 2);
-}
-
-fn b_a01(n: u8) {
-    b_init();
-    let _ = drive(a01::inst::f(0, 0), 1);
-    let always = b_arm_with(1, true);
-    let a: u8 = kani::any();
-    let (rp, pp) = drive(a01::plain::f(n, a), 3);
-    let ep = take();
-    reset_all();
-    let g = b_install();
-    let (ri, pi) = drive(a01::inst::f(n, a), 3);
-    drop(g);
-    let ei = take();
-    assert!(rp == ri && pp == pi && pi == n as usize + 1);
-    assert!(ep == ei);
-    // one enter/exit per poll, plus one around the drop of the inner future
-    check_span(&a01::WANT, &[], pi + 1, 2);
-    check_no_event();
-    kani::cover!(always && a == 255);
-}
-
-#[kani::proof]
-#[kani::unwind(2)]
-#[kani::stub(std::rt::thread_cleanup, noop)]
-#[kani::stub(core::fmt::write, fmt_write_stub)]
-fn c17_b_a01_n0() {
-    b_a01(0)
-}
-
-#[kani::proof]
-#[kani::unwind(2)]
-#[kani::stub(std::rt::thread_cleanup, noop)]
-#[kani::stub(core::fmt::write, fmt_write_stub)]
-fn c17_b_a01_n2() {
-    b_a01(2)
-}
-
-/// vacuity twin: must FAIL
-#[kani::proof]
-#[kani::unwind(2)]
-#[kani::stub(std::rt::thread_cleanup, noop)]
-#[kani::stub(core::fmt::write, fmt_write_stub)]
-fn c17_reach() {
-    b_init();
-    let _ = p01::inst::f(0, false);
-    let always = b_arm(1);
-    let (a, b): (u8, bool) = kani::any();
-    let g = b_install();
-    let ri = p01::inst::f(a, b);
-    drop(g);
-    if REC.new_spans.load(Relaxed) == 1 && FX_IN.load(Relaxed) == 1 && ri == 765 {
-        assert!(false);
+    pub type In = (u8, u8);
+    pub fn go(i: bool, (n, a): In) -> (u8, usize, Eff) {
+        let (r, p) = if i { drive(inst::f(n, a), n as usize + 1) } else { drive(plain::f(n, a), n as usize + 1) };
+        (r, p, take())
+    }
+    pub const WANT: Want = Want { name: sh("f"), level: 3, target: sh(inst::TARGET), fields: &[], parent_kind: 0 };
+    pub fn b(n: u8) {
+        let a: u8 = kani::any();
+        let (r, p, e) = check_b(go, (n, a), true);
+        assert!(p == n as usize + 1 && e.n == 2);
+        // one enter/exit per poll, plus one around the drop of the inner future
+        check_span(&WANT, &[], p + 1, e.n);
+        check_no_event();
+        kani::cover!(r == 7);
     }
 }
+proof_a!(c17_a_a01, 2, {
+    let x: a01::In = kani::any();
+    kani::assume(x.0 <= 2);
+    let (_, p, _) = check_a(a01::go, x);
+    assert!(p == x.0 as usize + 1);
+    kani::cover!(x.0 == 0);
+    kani::cover!(x.0 == 2);
+});
+proof_b!(c17_b_a01_n0, 2, { a01::b(0) });
+proof_b!(c17_b_a01_n2, 2, { a01::b(2) });
+proof_k!(c17_k_a01_n0, 2, {
+    k_init();
+    let _ = a01::go(true, (0, 0));
+    let a: u8 = kani::any();
+    let ((r, p, e), always) = check_k(a01::go, (0, a), 1);
+    assert!(p == 1 && e.n == 2);
+    check_span(&a01::WANT, &[], 2, e.n);
+    check_no_event();
+    kani::cover!(always && r == 7);
+    kani::cover!(!always);
+});
 
-pub mod dbg0 {
+// ---- a02: async fn with `?`, `err` and `ret`
+pub mod a02 {
     use super::*;
-    twin! { [instrument(skip(a))]
-        pub fn f(a: u8) -> u8 {
+    twin! { [instrument(skip(n), err, ret)]
+        pub async fn g(n: u8, a: u8) -> Result<Mark, Mark> {
             fx(1);
-            a.wrapping_add(1)
+            let q = step(a)?;
+            Leaf(n).await;
+            fx(q as u32);
+            Ok(Mark(q))
         }
     }
-    pub const WANT: Want = Want {
-        name: sh("f"), level: 3, target: sh(inst::TARGET),
-        fields: &[], values: &[], parent_kind: 0,
-    };
-}
-
-#[kani::proof]
-#[kani::unwind(2)]
-#[kani::stub(std::rt::thread_cleanup, noop)]
-#[kani::stub(core::fmt::write, fmt_write_stub)]
-fn c17_dbg0() {
-    b_init();
-    let _ = dbg0::inst::f(0);
-    let always = b_arm(1);
-    let a: u8 = kani::any();
-    let g = b_install();
-    let ri = dbg0::inst::f(a);
-    drop(g);
-    check_span(&dbg0::WANT, &[], 1, 1);
-}
-
-fn dbg1_span() -> tracing::Span {
-    tracing::span!(Level::INFO, "m")
-}
-
-#[kani::proof]
-#[kani::unwind(2)]
-#[kani::stub(std::rt::thread_cleanup, noop)]
-#[kani::stub(core::fmt::write, fmt_write_stub)]
-fn c17_dbg1() {
-    use tracing::Instrument;
-    b_init();
-    let _ = dbg1_span();
-    let always = b_arm_with(1, true);
-    let g = b_install();
-    let (r, p) = drive(Leaf(0).instrument(dbg1_span()), 1);
-    drop(g);
-    assert!(REC.new_spans.load(Relaxed) == 1);
-    assert!(REC.enters.load(Relaxed) == 2);
-    assert!(REC.exits.load(Relaxed) == 2);
-}
-
-#[kani::proof]
-#[kani::unwind(2)]
-#[kani::stub(std::rt::thread_cleanup, noop)]
-#[kani::stub(core::fmt::write, fmt_write_stub)]
-fn c17_dbg2() {
-    use tracing::Instrument;
-    b_init();
-    let _ = dbg1_span();
-    let always = b_arm_with(1, true);
-    let g = b_install();
-    let a: u8 = kani::any();
-    let (r, p) = drive(async move { fx(1); Leaf(0).await; fx(a as u32); a }.instrument(dbg1_span()), 1);
-    drop(g);
-    assert!(REC.new_spans.load(Relaxed) == 1);
-    assert!(REC.enters.load(Relaxed) == 2);
-    assert!(REC.exits.load(Relaxed) == 2);
-}
-
-async fn dbg3_f(a: u8) -> u8 {
-    use tracing::Instrument;
-    let span = dbg1_span();
-    let fut = async move { fx(1); Leaf(0).await; fx(a as u32); a };
-    if !span.is_disabled() {
-        fut.instrument(span).await
-    } else {
-        fut.await
+    pub type In = (u8, u8);
+    pub fn go(i: bool, (n, a): In) -> (Result<Mark, Mark>, usize, Eff) {
+        let (r, p) = if i { drive(inst::g(n, a), n as usize + 1) } else { drive(plain::g(n, a), n as usize + 1) };
+        (r, p, take())
+    }
+    pub const WANT: Want =
+        Want { name: sh("g"), level: 3, target: sh(inst::TARGET), fields: &[sh("a")], parent_kind: 0 };
+    pub fn b(n: u8) {
+        let a: u8 = kani::any();
+        REC.format_values.store(true, Relaxed);
+        let (r, p, e) = check_b(go, (n, a), true);
+        check_span(&WANT, &[(K_U64, a as u64)], p + 1, e.n);
+        match r {
+            Ok(m) => {
+                assert!(p == n as usize + 1);
+                check_event(3, sh(inst::TARGET), sh("return"));
+                check_fmt(false, m.0);
+            }
+            Err(m) => {
+                assert!(p == 1);
+                check_event(1, sh(inst::TARGET), sh("error"));
+                check_fmt(true, m.0);
+            }
+        }
+        kani::cover!(r.is_ok());
+        kani::cover!(r.is_err());
     }
 }
+proof_a!(c17_a_a02, 2, {
+    let x: a02::In = kani::any();
+    kani::assume(x.0 <= 2);
+    let (r, p, _) = check_a(a02::go, x);
+    kani::cover!(r.is_ok() && p == 3);
+    kani::cover!(r.is_err() && p == 1);
+});
+proof_bf!(c17_b_a02_n0, 4, { a02::b(0) });
+proof_bf!(c17_b_a02_n1, 4, { a02::b(1) });
 
-#[kani::proof]
-#[kani::unwind(2)]
-#[kani::stub(std::rt::thread_cleanup, noop)]
-#[kani::stub(core::fmt::write, fmt_write_stub)]
-fn c17_dbg3() {
-    b_init();
-    let _ = dbg1_span();
-    let always = b_arm_with(1, true);
-    let g = b_install();
-    let a: u8 = kani::any();
-    let (r, p) = drive(dbg3_f(a), 1);
-    drop(g);
-    assert!(REC.new_spans.load(Relaxed) == 1);
-    assert!(REC.enters.load(Relaxed) == 2);
-    assert!(REC.exits.load(Relaxed) == 2);
+// ---- a03: async fn with a drop-counted by-value argument and a `&mut` argument, two awaits
+pub mod a03 {
+    use super::*;
+    twin! { [instrument(skip(d, m, n))]
+        pub async fn h(d: Dc, m: &mut u32, n: u8) {
+            fx(d.0 as u32);
+            Leaf(n).await;
+            *m = m.wrapping_add(d.0 as u32);
+            Leaf(0).await;
+            fx(*m);
+        }
+    }
+    pub type In = (u8, u32, u8);
+    pub fn go(i: bool, (d, m0, n): In) -> (u32, usize, Eff) {
+        let mut m = m0;
+        let ((), p) =
+            if i { drive(inst::h(Dc(d), &mut m, n), n as usize + 1) } else { drive(plain::h(Dc(d), &mut m, n), n as usize + 1) };
+        (m, p, take())
+    }
+    pub const WANT: Want = Want { name: sh("h"), level: 3, target: sh(inst::TARGET), fields: &[], parent_kind: 0 };
+    pub fn b(n: u8) {
+        let (d, m0): (u8, u32) = kani::any();
+        let (m, p, e) = check_b(go, (d, m0, n), true);
+        assert!(p == n as usize + 1 && e.n == 2 && e.drops == 1);
+        check_span(&WANT, &[], p + 1, e.n);
+        check_no_event();
+        kani::cover!(m < m0);
+    }
 }
+proof_a!(c17_a_a03, 2, {
+    let x: a03::In = kani::any();
+    kani::assume(x.2 <= 2);
+    let (_, p, e) = check_a(a03::go, x);
+    assert!(p == x.2 as usize + 1 && e.drops == 1);
+    kani::cover!(x.2 == 1);
+});
+proof_b!(c17_b_a03_n0, 2, { a03::b(0) });
+proof_b!(c17_b_a03_n1, 2, { a03::b(1) });
 
-async fn dbg4_f(a: u8) -> u8 {
-    use tracing::Instrument;
-    let span = dbg1_span();
-    let fut = async move { fx(1); Leaf(0).await; fx(a as u32); a };
-    fut.instrument(span).await
+// ---- a04: async method on `&self` with a `fields(..)` expression over `self`
+pub mod a04 {
+    use super::*;
+    twin_impl! { [instrument(skip(self, n), fields(v = self.v))]
+        pub async fn am(&self, n: u8, k: u8) -> u32 {
+            fx(k as u32);
+            Leaf(n).await;
+            fx(self.v);
+            self.v.wrapping_sub(k as u32)
+        }
+    }
+    pub type In = (u32, u8, u8);
+    pub fn go(i: bool, (v, n, k): In) -> (u32, usize, Eff) {
+        let (r, p) = if i {
+            let a = inst::Acc { v, d: Dc(0) };
+            drive(a.am(n, k), n as usize + 1)
+        } else {
+            let a = plain::Acc { v, d: Dc(0) };
+            drive(a.am(n, k), n as usize + 1)
+        };
+        (r, p, take())
+    }
+    pub const WANT: Want =
+        Want { name: sh("am"), level: 3, target: sh(inst::TARGET), fields: &[sh("k"), sh("v")], parent_kind: 0 };
+    pub fn b(n: u8) {
+        let (v, k): (u32, u8) = kani::any();
+        let (r, p, e) = check_b(go, (v, n, k), true);
+        assert!(p == n as usize + 1 && e.n == 2 && e.drops == 1);
+        check_span(&WANT, &[(K_U64, k as u64), (K_U64, v as u64)], p + 1, e.n);
+        check_no_event();
+        kani::cover!(r > v);
+    }
 }
+proof_a!(c17_a_a04, 2, {
+    let x: a04::In = kani::any();
+    kani::assume(x.1 <= 2);
+    let (r, p, _) = check_a(a04::go, x);
+    assert!(p == x.1 as usize + 1);
+    kani::cover!(r > x.0);
+});
+proof_b!(c17_b_a04_n0, 3, { a04::b(0) });
+proof_b!(c17_b_a04_n2, 3, { a04::b(2) });
 
-#[kani::proof]
-#[kani::unwind(2)]
-#[kani::stub(std::rt::thread_cleanup, noop)]
-#[kani::stub(core::fmt::write, fmt_write_stub)]
-fn c17_dbg4() {
-    b_init();
-    let _ = dbg1_span();
-    let always = b_arm_with(1, true);
-    let g = b_install();
-    let a: u8 = kani::any();
-    let (r, p) = drive(dbg4_f(a), 1);
-    drop(g);
-    assert!(REC.new_spans.load(Relaxed) == 1);
-    assert!(REC.enters.load(Relaxed) == 2);
-    assert!(REC.exits.load(Relaxed) == 2);
+// ---- a05: async-trait style: a plain fn returning `Box::pin(async move { .. })`
+pub mod a05 {
+    use super::*;
+    twin! { [instrument(skip(n))]
+        pub fn bx(n: u8, a: u8) -> Pin<Box<dyn Future<Output = u8> + 'static>> {
+            Box::pin(async move {
+                fx(a as u32);
+                Leaf(n).await;
+                fx(2);
+                a.rotate_left(1)
+            })
+        }
+    }
+    pub type In = (u8, u8);
+    pub fn go(i: bool, (n, a): In) -> (u8, usize, Eff) {
+        let (r, p) = if i { drive(inst::bx(n, a), n as usize + 1) } else { drive(plain::bx(n, a), n as usize + 1) };
+        (r, p, take())
+    }
+    pub const WANT: Want =
+        Want { name: sh("bx"), level: 3, target: sh(inst::TARGET), fields: &[sh("a")], parent_kind: 0 };
+    pub fn b(n: u8) {
+        let a: u8 = kani::any();
+        let (r, p, e) = check_b(go, (n, a), true);
+        assert!(p == n as usize + 1 && e.n == 2);
+        check_span(&WANT, &[(K_U64, a as u64)], p + 1, e.n);
+        check_no_event();
+        kani::cover!(r == 3);
+    }
 }
+proof_a!(c17_a_a05, 2, {
+    let x: a05::In = kani::any();
+    kani::assume(x.0 <= 2);
+    let (_, p, _) = check_a(a05::go, x);
+    assert!(p == x.0 as usize + 1);
+    kani::cover!(x.0 == 2);
+});
+proof_b!(c17_b_a05_n0, 2, { a05::b(0) });
+proof_b!(c17_b_a05_n1, 2, { a05::b(1) });
 
-#[kani::proof]
-#[kani::unwind(2)]
-#[kani::stub(std::rt::thread_cleanup, noop)]
-#[kani::stub(core::fmt::write, fmt_write_stub)]
-fn c17_dbg5() {
-    b_init();
-    let _ = drive(a01::inst::f(0, 0), 1);
-    let always = b_arm_with(1, true);
-    let a: u8 = kani::any();
-    let g = b_install();
-    let (ri, pi) = drive(a01::inst::f(0, a), 3);
-    drop(g);
-    check_span(&a01::WANT, &[], pi + 1, 2);
-}
-
-/// warm-up for async callsites: first poll only (creates the span => first hit), then forget
-fn first_poll_then_forget<F: Future>(f: F) {
-    let waker = unsafe { Waker::from_raw(RawWaker::new(core::ptr::null(), &WAKER_VT)) };
-    let mut cx = Context::from_waker(&waker);
-    let mut f = core::mem::ManuallyDrop::new(f);
-    let p = unsafe { Pin::new_unchecked(&mut *f) };
-    let _ = p.poll(&mut cx);
-}
-
-#[kani::proof]
-#[kani::unwind(2)]
-#[kani::stub(std::rt::thread_cleanup, noop)]
-#[kani::stub(core::fmt::write, fmt_write_stub)]
-fn c17_dbg6() {
-    b_init();
-    first_poll_then_forget(a01::inst::f(1, 0));
-    let always = b_arm_with(1, true);
-    let a: u8 = kani::any();
-    let g = b_install();
-    let (ri, pi) = drive(a01::inst::f(0, a), 3);
-    drop(g);
-    check_span(&a01::WANT, &[], pi + 1, 2);
-}
+/// vacuity twin: must FAIL (a span was recorded, the body ran inside it, the twins agree)
+proof_b!(c17_reach, 3, {
+    let x: p01::In = kani::any();
+    let always: bool = kani::any();
+    let (r, e) = check_b(p01::go, x, always);
+    if REC.new_spans.load(Relaxed) == 1 && FX_IN.load(Relaxed) == 1 && r == 765 && !always {
+        assert!(false);
+    }
+});
